@@ -343,7 +343,7 @@ def pipeline_stage(run):
     check_vacuity(mc, ["SourceRead", "DetectDone", "WriteDoc", "FailEnd", "Finish"])
     if mc["violated"] is None and ("Temporal properties were violated" in mc["out"] or "is violated" in mc["out"]):
         mc["violated"] = "temporal property (Refines / Terminates / EventuallyAll)"
-    run.add_mc(mc, "XtPipeline: PInv (lag <= 2 for every packetisation, all documents written, faults are errors), refinement of XtObs, termination under weak fairness; "
+    run.add_mc(mc, "XtPipeline: PInv (lag <= 2 for every packetisation, all documents written, faults are errors; behind the command line's buffered writer at most Ceil(ob/fs) frames more), refinement of XtObs, termination under weak fairness; "
                    "3 source formats x detection on/off x stream shapes x packet sizes x one read and one write fault")
 
 
